@@ -9,7 +9,7 @@ from __future__ import annotations
 
 import math
 import os
-from concurrent.futures import ProcessPoolExecutor
+from vcore.pool import pmap
 from fractions import Fraction
 
 from vcore import tlc as T
@@ -293,8 +293,8 @@ def main(run, replay=None):
         for ch in chunks(walks, 4):
             tasks.append((ch, run.seed * 100 + seed))
     fails = []
-    with ProcessPoolExecutor(max_workers=nproc) as ex:
-        for out in ex.map(an_walk_task, tasks):
+    if True:
+        for out in pmap(an_walk_task, tasks, nproc):
             run.evaluations += out["steps"]
             fails += out["fails"]
             if out["kinds"] and "unbiased" not in out["kinds"]:
@@ -316,8 +316,8 @@ def main(run, replay=None):
                 run.nontrivial.add((name,) + e)
         tasks = [(ch, mom, run.seed, dt) for dt in (["float32", "float64"] if thorough else ["float32"]) for ch in chunks(walks, nproc)]
         bfails = []
-        with ProcessPoolExecutor(max_workers=nproc) as ex:
-            for out in ex.map(bn_walk_task, tasks):
+        if True:
+            for out in pmap(bn_walk_task, tasks, nproc):
                 run.evaluations += out["steps"]
                 bfails += out["fails"]
         if bfails and all(f["clause"] in ("running_var", "output", "logabsdet") for f in bfails):
@@ -326,8 +326,8 @@ def main(run, replay=None):
             g2 = parse_dot(res2.dot)
             walks2 = annotate(g2, covering_walks(g2, g2.init[0]))
             b2 = []
-            with ProcessPoolExecutor(max_workers=nproc) as ex:
-                for out in ex.map(bn_walk_task, [(ch, mom, run.seed, "float32") for ch in chunks(walks2, nproc)]):
+            if True:
+                for out in pmap(bn_walk_task, [(ch, mom, run.seed, "float32") for ch in chunks(walks2, nproc)], nproc):
                     b2 += out["fails"]
             if not b2:
                 run.note_drift("BatchNorm follows the momentum rule with the biased batch variance (pinned tree: unbiased)")
